@@ -73,8 +73,9 @@ Definition count_live (dl : N) (s : sp) (isop : bool) : nat :=
 Definition dep_live (dl : N) (s : sp) (d : dep) : bool :=
   forallb (fun n => live dl s (true, n)) (d_ops d) && forallb (fun n => live dl s (false, n)) (d_srs d).
 
-Definition evaluating (o : op) : bool :=
-  match o with ORegOp _ | ORegSr _ | ODeregOp _ | ODeregSr _ | OFin _ => true | _ => false end.
+(* the ops at which the job looks at its cluster; [fin] = a start in flight ends in this step *)
+Definition evaluating (o : op) (fin : bool) : bool :=
+  match o with ORegOp _ | ORegSr _ | ODeregOp _ | ODeregSr _ => true | OFin _ => fin | _ => false end.
 
 Definition spec_step (w : nat) (dl : N) (s : sp) (o : op) (b : obs) : sp * list N :=
   (* 1. the history: clock, registrations *)
@@ -94,6 +95,7 @@ Definition spec_step (w : nat) (dl : N) (s : sp) (o : op) (b : obs) : sp * list 
     end in
   (* 2. the end of a start in flight *)
   let fin_fail := match o, sp_pend s1 with OFin false, Some _ => true | _, _ => false end in
+  let fin_any := match o, sp_pend s1 with OFin _, Some _ => true | _, _ => false end in
   let e_split :=
     match o, sp_pend s1 with
     | OFin true, Some _ => if o_split b =? sp_pend_latest s1 + 1 then [] else [12]
@@ -119,12 +121,12 @@ Definition spec_step (w : nat) (dl : N) (s : sp) (o : op) (b : obs) : sp * list 
     end in
   (* 4. Running only on a live assembly, at every point where the job looks at its cluster *)
   let e_run :=
-    if evaluating o && (o_status b =? 3) then
+    if evaluating o fin_any && (o_status b =? 3) then
       match sp_cur s3 with Some d => if dep_live dl s3 d then [] else [13] | None => [13] end
     else [] in
   (* 5. enough live nodes and the job was waiting: an assembly must be started *)
   let e_wait :=
-    if evaluating o && ((sp_prev s =? 0) || (sp_prev s =? 1) || fin_fail)
+    if evaluating o fin_any && ((sp_prev s =? 0) || (sp_prev s =? 1) || fin_fail)
        && ((o_status b =? 0) || (o_status b =? 1))
        && Nat.leb w (count_live dl s3 true) && Nat.leb w (count_live dl s3 false) then [19] else [] in
   (* 6. checkpoint tick *)
